@@ -2,6 +2,7 @@
 from contracts.c02_solve_t import SolveTContract
 from contracts.c05_solve import SolvePeriodContract
 from props.solve_bounded import SolveTScripted
+from verif.crosscheck import TARGETS as _XT, EncoderCrossCheck
 from verif.spec import PropertySpec
 
 _c = SolveTContract()
@@ -28,3 +29,5 @@ PROPERTY = PropertySpec(
                  'hook interface: _evaluate / solve_t_before / solve_t_after may change any variable cell and raise any Exception but do not touch '
                  'status, iterations, span, check, endogenous'],
 )
+
+PROPERTY.bounded.append(EncoderCrossCheck(_XT['C02']))
